@@ -260,6 +260,31 @@ def case_index(rng: Any, ctx: Ctx, index: int) -> None:
     LOG.sample({'index': form, 'structure': dense.struct_str(s), 'op': dense.describe(op)})
 
 
+def case_nearmiss(rng: Any, ctx: Ctx, index: int) -> None:
+    """P @ Q.T / Q.T @ P for two DIFFERENT selections (other array, other integer, other slice, a pack and an index, repeated
+    entries): reduce() may do what it likes except change the map (only P @ P.T of a duplicate-free P is the identity)."""
+    from .. import patterns
+    from furax._base.core import CompositionOperator
+    gen.begin_case(rng)
+    form = [0, 1, 2, 7, 8][index % 5]
+    tag, ops = patterns.p_nearmiss(rng, form)
+    LOG.case_key(f'nearmiss:{tag}', True)
+    LOG.count('C12.nearmiss', tag)
+
+    def judge() -> None:
+        e = CompositionOperator(list(ops))
+        with quiet():
+            m0 = dense.matrix(ops[0]) @ dense.matrix(ops[1])
+        r = e.reduce()
+        LOG.evaluated('C12.products')
+        with quiet():
+            m1 = dense.matrix(r)
+        if m0.shape != m1.shape or not np.allclose(m0, m1, atol=1e-5):
+            LOG.violation('C12', 'C12.products', f'{type(ops[0]).__name__}@{type(ops[1]).__name__}/near-miss/{type(r).__name__}',
+                          f'{tag}: reduce() changed the map of a product of two different selections', left=dense.describe(ops[0]), right=dense.describe(ops[1]))
+    guarded('C12.products', judge)
+
+
 def case_pack(rng: Any, ctx: Ctx, index: int) -> None:
     gen.begin_case(rng)
     dt = gen.case_dtype(rng)
@@ -318,4 +343,8 @@ def case_pack(rng: Any, ctx: Ctx, index: int) -> None:
 def run(ctx: Ctx) -> None:
     enable('mvref')
     drive(ctx, case_index, 2400, 24000, stream=0, part='index')
-    drive(ctx, case_pack, 600, 6000, stream=1, part='pack')
+    def pack_mix(rng: Any, c: Ctx, index: int) -> None:
+        if index % 4 == 3:
+            return case_nearmiss(rng, c, index // 4)
+        return case_pack(rng, c, index)
+    drive(ctx, pack_mix, 800, 8000, stream=1, part='pack')
